@@ -79,6 +79,11 @@ def reference(lines):
     errs = []
     spec = []
     for op, out in lines:
+        try:
+            _probe = (out.split()[0].split("=")[1] if op == "new" else out.split()[1].split("=")[1] if (op.startswith("del") and out != "skip") else None)
+        except Exception:
+            # an assertion of the class, a sanitizer report or an abort instead of the answer to this operation
+            return ["the real SmartList did not answer operation `%s` normally: %r" % (op, out[:200])]
         if op == "new":
             slot = int(out.split()[0].split("=")[1])
             if slot in spec:
@@ -206,6 +211,8 @@ def run(ctx):
                 outl = impl.get(i, [])
                 ops = [o for o in c]
                 errs = reference(list(zip(ops, outl)))
+                if not errs and len(outl) < len(ops):
+                    errs = ["the real SmartList stopped answering after operation #%d `%s` (assert / sanitizer abort)" % (len(outl), ops[len(outl)])]
                 if errs:
                     oracle_fail = dict(chunkSh=sh, chunkLen=ln, ops=shrink(binp, sh, ln, c), errors=errs)
                     break
